@@ -13,7 +13,10 @@ PY_PLACE = "PyLib PySrcBase PySrcPlace PySrcPlaceFacts"   # petri_net_translatio
 PY_SD = "PyLib PyLibSd PySrcSdBase PySrcSd PySrcSdFacts"              # _sd_algorithms/expand_bfs.py, expand_dfs.py
 PY_TARGET = "PyLibSd PySrcSdBase PySrcSdTarget PySrcSdTargetFacts"   # _sd_algorithms/expand_to_target.py
 PY_CORE = "PyLibCore PySrcCore PySrcCoreFacts"                    # succession_diagram.py: _update_node_depth, _ensure_edge, _ensure_node, _expand_one_node, node_successors, node_is_minimal, __len__, root
-EXTRA_IMPORTS = {"C02": PY_SD + " " + PY_CORE, "C03": PY_SD, "C04": PY_SD + " " + PY_CORE, "C14": PY_CORE, "C06": PY_SPACE + " " + PY_TARGET, "C10": PY_PLACE, "C20": PY_KEY + " " + PY_CORE}
+PY_CORE2 = PY_CORE + " PyLibCore2 PySrcCore2 PySrcCore2Facts"    # succession_diagram.py: skip_to_minimal, skip_remaining, depth, reclaim_node_data
+PY_MIN = "PyLib PyLibSd PyLibCore PyLibSd2 PySrcSdBase PySrcSdMin PySrcSdMinFacts"   # _sd_algorithms/expand_minimal_spaces.py
+EXTRA_IMPORTS = {"C02": PY_SD + " " + PY_CORE, "C03": PY_SD + " " + PY_MIN, "C04": PY_SD + " " + PY_CORE, "C05": PY_CORE2 + " " + PY_MIN, "C14": PY_CORE2,
+                 "C06": PY_SPACE + " " + PY_TARGET, "C10": PY_PLACE, "C20": PY_KEY + " " + PY_CORE2}
 
 def imports_for(pid):
     extra = EXTRA_IMPORTS.get(pid)
@@ -108,6 +111,7 @@ each once; at the root those fixing every source), root = percolation of the who
            ("source_class_invariant_initially", "init_CoreInv", None),
            ("source_expand_bfs", "py_expand_bfs_spec_all", "translator tie: the function GENERATED from the current text of biobalm/_sd_algorithms/expand_bfs.py (PySrcSd.v, regenerated on every run; embedding PyLibSd.v) equals the model's expand_bfs for every diagram, every limit and every fuel"),
            ("source_expand_dfs", "py_expand_dfs_spec_all", "... and expand_dfs.py the model's expand_dfs"),
+           ("source_public_expand_bfs", "py_api_expand_bfs_spec", "the public methods SuccessionDiagram.expand_bfs / expand_dfs (generated from the source: they pass their parameters on in order)"), ("source_public_expand_dfs", "py_api_expand_dfs_spec", None),
            ("bfs_hierarchy", "bfs_hierarchy", None), ("dfs_hierarchy", "dfs_hierarchy", None),
            ("successors", "hierarchy_successors", "successors = percolations of the maximal trap spaces"),
            ("leaves", "hierarchy_leaves", "nodes without successors = minimal trap spaces of the network"),
@@ -132,8 +136,13 @@ strongly connected, pairwise disjoint sets of source_sccs_spec, every node it cr
 leaves every node expanded with the expanded leaves being exactly the minimal trap spaces (expand_scc_AllExpanded,
 expand_scc_LeafOK, expand_scc_MinFound) -- although the diagram it builds is not faithful (D15).  So every strategy of the
 statement has a theorem.""",
- theorems=[("source_expand_bfs", "py_expand_bfs_spec_all", "translator tie: the function GENERATED from the current text of biobalm/_sd_algorithms/expand_bfs.py (PySrcSd.v, regenerated on every run; embedding PyLibSd.v) equals the model's expand_bfs for every diagram, every limit and every fuel"),
+ theorems=[("source_expand_minimal_spaces", "py_expand_minimal_spaces_spec", "translator tie: the function GENERATED from the current text of biobalm/_sd_algorithms/expand_minimal_spaces.py (with its nested make_skip_node; PySrcSdMin.v) equals the model's expand_min on every well-formed diagram, for every start node, limit, skip option and fuel, given the tape contract"),
+           ("source_public_expand_minimal_spaces", "py_api_expand_minimal_spaces_spec", None),
+           ("source_make_skip_node", "py_make_skip_node_spec_weak", "the nested make_skip_node on its own equals the model's make_skip_node when the node is expanded or its space is not one of the minimal trap spaces (always the case inside expand_minimal_spaces); without that condition the text asserts where the model adds a self-loop: py_make_skip_node_spec_counterexample"),
+           ("source_make_skip_node_counterexample", "py_make_skip_node_spec_counterexample", None),
+           ("source_expand_bfs", "py_expand_bfs_spec_all", "translator tie: the function GENERATED from the current text of biobalm/_sd_algorithms/expand_bfs.py (PySrcSd.v, regenerated on every run; embedding PyLibSd.v) equals the model's expand_bfs for every diagram, every limit and every fuel"),
            ("source_expand_dfs", "py_expand_dfs_spec_all", "... and expand_dfs.py the model's expand_dfs"),
+           ("source_public_expand_bfs", "py_api_expand_bfs_spec", "the public methods SuccessionDiagram.expand_bfs / expand_dfs (generated from the source: they pass their parameters on in order)"), ("source_public_expand_dfs", "py_api_expand_dfs_spec", None),
            ("bfs_complete", "bfs_complete", None), ("dfs_complete", "dfs_complete", None),
            ("leaves_are_min_traps", "hierarchy_leaves", None), ("min_traps_spec", "min_traps_b_spec", "the oracle for minimal trap spaces is exact"),
            ("min_trap_exists", "min_trap_exists", None), ("min_trap_closed", "min_trap_closed", None),
@@ -182,6 +191,7 @@ such state yields a Hierarchy (bfs_complete + the invariants), i.e. the same dia
            ("source_expand_one_node", "py_expand_one_node_spec", "translator tie: the function GENERATED from the current text of SuccessionDiagram._expand_one_node (PySrcCore.v; embedding PyLibCore.v) computes Diagram.expand_one for every diagram satisfying the class invariant CoreInv, every oracle for the percolated-net cache, and preserves CoreInv"),
            ("source_expand_bfs", "py_expand_bfs_spec_all", "translator tie: the function GENERATED from the current text of biobalm/_sd_algorithms/expand_bfs.py (PySrcSd.v, regenerated on every run; embedding PyLibSd.v) equals the model's expand_bfs for every diagram, every limit and every fuel"),
            ("source_expand_dfs", "py_expand_dfs_spec_all", "... and expand_dfs.py the model's expand_dfs"),
+           ("source_public_expand_bfs", "py_api_expand_bfs_spec", "the public methods SuccessionDiagram.expand_bfs / expand_dfs (generated from the source: they pass their parameters on in order)"), ("source_public_expand_dfs", "py_api_expand_dfs_spec", None),
            ("run_invariants", "run_invariants", None), ("step_Faithful_all", "step_Faithful_all", None),
            ("step_NoStubEdges", "step_NoStubEdges", None), ("step_SWF", "step_SWF", None),
            ("expand_one_canonical", "expand_one_canonical", "what a single node expansion establishes, atomically"),
@@ -207,7 +217,10 @@ which 8 of 16 attractors are represented by no node although every skip node fol
 property of the rule, not of the candidate search; the same history is replayed on the code (corpus/C05.jsonl) and
 the model's per-node seed counts are compared with the code's on every modelable run.  ideal_seeds_sound is the
 half of the statement that survives (no spurious seeds).""",
- theorems=[("skip_ops_keep_wellformed", "step_SWF", None), ("skip_ops_keep_faithful", "step_Faithful_all", None),
+ theorems=[("source_skip_to_minimal", "py_skip_to_minimal_spec", "translator tie: the functions GENERATED from the current text of SuccessionDiagram.skip_to_minimal / skip_remaining (PySrcCore2.v) compute the model's skip_to_minimal_t / skip_remaining under the class invariant and the tape contract"),
+           ("source_skip_remaining", "py_skip_remaining_spec", None),
+           ("source_expand_minimal_spaces", "py_expand_minimal_spaces_spec", "... and expand_minimal_spaces (skip_ignored) the model's expand_min"),
+           ("skip_ops_keep_wellformed", "step_SWF", None), ("skip_ops_keep_faithful", "step_Faithful_all", None),
            ("skip_ops_clear_caches", "step_CacheOK", "skipping discards attractor data computed while the node had no successors"),
            ("check_seeds_ok", "check_seeds_ok", None), ("edge_strict", "step_EdgeStrict", "skip edges lead to strictly smaller spaces (no self loops)"),
            ("node_attractors_complete", "node_attractors_b_complete", None),
@@ -245,6 +258,7 @@ forces it, the final trap space meets the target and every minimal trap space in
            ("source_is_subspace", "py_is_subspace_spec", "translator tie: the function generated from the CURRENT source of space_utils.is_subspace equals the model's subspace"),
            ("source_intersect", "py_intersect_spec", "... and space_utils.intersect the model's intersect"),
            ("control_after_any_plain_history", "control_after_plain_history_sound", "the whole call -- target-directed expansion of ANY plainly reached diagram, then succession control with either setting of skip_feedforward_successions -- reports only interventions that satisfy the property"),
+           ("source_public_expand_to_target", "py_api_expand_to_target_spec", None),
            ("source_expand_to_target", "py_expand_to_target_spec_all", "translator tie: the function GENERATED from the current text of biobalm/_sd_algorithms/expand_to_target.py (PySrcSdTarget.v) equals the model's expand_to_target"),
            ("control_after_ANY_history", "control_after_any_history_sound", "the same for EVERY history of operations, skip operations (skip_to_minimal, skip_remaining, minimal-space expansion with skipping) included: the reported interventions are sound on diagrams with skip nodes and parentless minimal-trap nodes"),
            ("control_sound_on_skipped_diagrams", "succession_control_sound_any", "succession_control on any diagram satisfying the all-history invariant AnyInv"),
@@ -400,7 +414,8 @@ SPEC["C14"] = dict(title="Cached attractor data is never stale", comment="""
 Model: every cache field carries a ghost tag = the successor motif list and skip flag it was computed
 against (Diagram.cur_tag); CacheOK says every set field carries the node's CURRENT tag.  The correspondence
 run compares which fields are set after every operation and judges the cached values themselves.""",
- theorems=[("source_expand_one_node", "py_expand_one_node_spec", "translator tie: the function GENERATED from the current text of SuccessionDiagram._expand_one_node (PySrcCore.v; embedding PyLibCore.v) computes Diagram.expand_one for every diagram satisfying the class invariant CoreInv, every oracle for the percolated-net cache, and preserves CoreInv"),
+ theorems=[("source_reclaim_node_data", "py_reclaim_node_data_spec", "translator tie: reclaim_node_data as generated from the source = Diagram.reclaim"),
+           ("source_expand_one_node", "py_expand_one_node_spec", "translator tie: the function GENERATED from the current text of SuccessionDiagram._expand_one_node (PySrcCore.v; embedding PyLibCore.v) computes Diagram.expand_one for every diagram satisfying the class invariant CoreInv, every oracle for the percolated-net cache, and preserves CoreInv"),
            ("step_CacheOK", "step_CacheOK", None), ("run_CacheOK", "run_CacheOK", None), ("expand_one_CacheOK", "expand_one_CacheOK", None),
            ("q_cands_CacheOK", "q_cands_CacheOK", None), ("q_seeds_CacheOK", "q_seeds_CacheOK", None), ("q_sets_CacheOK", "q_sets_CacheOK", None),
            ("reclaim_CacheOK", "reclaim_CacheOK", None), ("not_vacuous", "stale_not_CacheOK", "CacheOK really excludes stale data"),
@@ -509,7 +524,8 @@ SPEC["C20"] = dict(title="Reported diagram metadata is accurate", comment="""
 Model: node ids are list positions (contiguous from the root at 0, len = size); depths are maintained by
 raise_depth; find_node goes through the integer key; ObsFacts.is_subgraph_b models is_subgraph (after fix 087feea).
 PARTIAL: summary() is not modelled; it is decided by recomputation in the run.""",
- theorems=[("source_ensure_node", "py_ensure_node_spec", "... _ensure_node / _ensure_edge / _update_node_depth compute Diagram.ensure_node"),
+ theorems=[("source_depth", "py_depth_spec", "translator tie: SuccessionDiagram.depth as generated from the source = Diagram.depth"),
+           ("source_ensure_node", "py_ensure_node_spec", "... _ensure_node / _ensure_edge / _update_node_depth compute Diagram.ensure_node"),
            ("source_len", "py_len_spec", "translator tie: __len__, root and node_is_minimal as generated from the source"), ("source_root", "py_root_spec", None), ("source_node_is_minimal", "py_node_is_minimal_spec", None),
            ("find_node_exact", "find_node_exact", None), ("find_node_none", "find_node_none", None), ("step_extends", "step_extends", "ids and spaces are stable"),
            ("depth_longest_path_all_histories", "run_DepthOK_all", None), ("depth_longest_path", "depth_longest_path", None),
